@@ -129,6 +129,16 @@ pub fn point_from_json(v: &Value) -> Result<JubJubExtended, String> {
             _ => Err(format!("unknown named point {name}")),
         };
     }
+    if let Some(of) = v.get("of") {
+        // [k]P computed with the library (scenario convenience only; expected
+        // values are always recomputed by the specification)
+        let base = point_from_json(of)?;
+        let k = fe_from_json(v.get("mul").ok_or("mul/of without mul")?)?;
+        let s: Option<dusk_jubjub::JubJubScalar> =
+            dusk_jubjub::JubJubScalar::from_bytes(&k.to_bytes()).into();
+        let s = s.ok_or("mul scalar not canonical")?;
+        return Ok(base * s);
+    }
     if let Some(ext) = v.get("ext").and_then(|e| e.as_array()) {
         if ext.len() != 5 {
             return Err("ext needs 5 coordinates".into());
@@ -547,6 +557,53 @@ impl<'a> Interp<'a> {
                 let w = self.wit(op, "w")?;
                 let v = fe(op, "v")?;
                 self.c.verif_set_witness(w.index(), v);
+            }
+            "dup_rows" => {
+                // re-emit rows [from, from+count) as raw rows, overriding the
+                // arithmetic selectors given in `q` (and q_arith = 1 when any
+                // is given); `pi: "balance"` attaches the public input that
+                // cancels the arithmetic identity for the current values.
+                let from = usz(op, "from")?;
+                let count = usz(op, "count")?;
+                let snap = self.c.verif_snapshot();
+                if from + count > snap.rows.len() {
+                    return bad("dup_rows out of range");
+                }
+                let q = op.get("q").cloned().unwrap_or(json!({}));
+                for i in from..from + count {
+                    let mut sel = snap.rows[i].selectors;
+                    let mut any = false;
+                    for (k, name) in ["m", "l", "r", "o", "f", "c"].iter().enumerate() {
+                        if let Some(v) = q.get(*name) {
+                            sel[k] = fe_from_json(v).map_err(RunError::Bad)?;
+                            any = true;
+                        }
+                    }
+                    if any {
+                        sel[6] = BlsScalar::one();
+                    }
+                    let w = snap.rows[i].wires;
+                    let vals: Vec<BlsScalar> = w.iter().map(|k| snap.witnesses[*k]).collect();
+                    let pi = match op.get("pi").and_then(|p| p.as_str()) {
+                        Some("balance") => {
+                            let a = sel[0] * vals[0] * vals[1]
+                                + sel[1] * vals[0]
+                                + sel[2] * vals[1]
+                                + sel[3] * vals[2]
+                                + sel[4] * vals[3]
+                                + sel[5];
+                            Some(-(a * sel[6]))
+                        }
+                        _ => None,
+                    };
+                    let wires = [
+                        self.c.verif_witness(w[0]).unwrap(),
+                        self.c.verif_witness(w[1]).unwrap(),
+                        self.c.verif_witness(w[2]).unwrap(),
+                        self.c.verif_witness(w[3]).unwrap(),
+                    ];
+                    self.c.verif_raw_gate(sel, wires, pi);
+                }
             }
             "pad" => {
                 let to = usz(op, "to")?;
